@@ -9,6 +9,9 @@ executed):
              parameters, attributes, globals and keyword names untouched
   noop       a no-op assignment inserted at the top of every function
   all        reformat + rename + noop
+  imports    ``from .mod import f`` turned into ``from . import mod as
+             mod__m`` with every use of ``f`` written ``mod__m.f`` (the
+             other import style of the same objects)
 
 usage: python3 selftest/neutral.py [variant ...] [-p C01,C02] [-v]
 exit 0 iff no check exits 1 on any variant (exit 2 = 'undecided' is listed).
@@ -115,6 +118,65 @@ class NoOp(ast.NodeTransformer):
         return node
 
 
+class ImportStyle(ast.NodeTransformer):
+    """from .mod import f, g  ->  from . import mod as mod__m; f -> mod__m.f
+    for relative imports of package modules.  Names that are re-bound
+    anywhere in the module (assignment targets, parameters, loop variables,
+    handler names) are left as they are."""
+
+    def __init__(self, tree):
+        self.map = {}
+        rebound = set()
+        for n in ast.walk(tree):
+            if isinstance(n, ast.Name) and isinstance(
+                    n.ctx, (ast.Store, ast.Del)):
+                rebound.add(n.id)
+            elif isinstance(n, ast.arg):
+                rebound.add(n.arg)
+            elif isinstance(n, (ast.FunctionDef, ast.AsyncFunctionDef,
+                                ast.ClassDef)):
+                rebound.add(n.name)
+            elif isinstance(n, ast.ExceptHandler) and n.name:
+                rebound.add(n.name)
+            elif isinstance(n, (ast.Global, ast.Nonlocal)):
+                rebound.update(n.names)
+        self.rebound = rebound
+        self.new_imports = []
+        body = []
+        for st in tree.body:
+            if isinstance(st, ast.ImportFrom) and st.level >= 1 and \
+                    st.module and "." not in st.module and all(
+                        a.name != "*" for a in st.names):
+                keep = []
+                alias = st.module + "__m"
+                moved = False
+                for a in st.names:
+                    local = a.asname or a.name
+                    if local in rebound or local[:1].isupper() and False:
+                        keep.append(a)
+                        continue
+                    self.map[local] = (alias, a.name)
+                    moved = True
+                if moved:
+                    body.append(ast.ImportFrom(
+                        module=None, level=st.level,
+                        names=[ast.alias(name=st.module, asname=alias)]))
+                if keep:
+                    body.append(ast.ImportFrom(module=st.module,
+                                               names=keep, level=st.level))
+                continue
+            body.append(st)
+        tree.body = body
+
+    def visit_Name(self, node):
+        if isinstance(node.ctx, ast.Load) and node.id in self.map:
+            alias, name = self.map[node.id]
+            return ast.copy_location(ast.Attribute(
+                value=ast.Name(id=alias, ctx=ast.Load()), attr=name,
+                ctx=ast.Load()), node)
+        return node
+
+
 def make_variant(kind, dst):
     shutil.copytree(REPO / "mokapot", dst / "mokapot")
     for path in sorted((dst / "mokapot").rglob("*.py")):
@@ -124,6 +186,8 @@ def make_variant(kind, dst):
             tree = Renamer().visit(tree)
         if kind in ("noop", "all"):
             tree = NoOp().visit(tree)
+        if kind == "imports" and path.name != "__init__.py":
+            tree = ImportStyle(tree).visit(tree)
         ast.fix_missing_locations(tree)
         out = ast.unparse(tree)
         compile(out, str(path), "exec")
@@ -161,7 +225,7 @@ def main():
     if props is None:
         man = json.loads((VERIF / "MANIFEST.json").read_text())
         props = [c["property_id"] for c in man["checks"]]
-    kinds = args or ["reformat", "rename", "noop", "all"]
+    kinds = args or ["reformat", "rename", "noop", "all", "imports"]
     bad = 0
     undecided = 0
     for kind in kinds:
